@@ -57,7 +57,15 @@ fn plan(prop: &str, tier: &str) -> Plan {
             p.enum_empty = vec![];
             p.enum_shapes = vec![];
         }
-        "C09" | "C10" | "C11" | "C07" | "C08" | "C13" => {
+        "C13" => {
+            p.enum_empty = vec![];
+            p.enum_shapes = vec![];
+            if !quick {
+                p.random_cases = 100_000;
+                p.long_cases = 10_000;
+            }
+        }
+        "C09" | "C10" | "C11" | "C07" | "C08" => {
             if !quick {
                 p.random_cases = 200_000;
                 p.long_cases = 20_000;
@@ -100,7 +108,7 @@ fn main() {
             let rf: ReplayFile = serde_json::from_str(&std::fs::read_to_string(&file).expect("read replay")).expect("parse replay");
             let prof = Profile::for_prop(&rf.profile);
             let cfg = cfg_for(&prop, &[]);
-            let run = run_history::<P>(&rf.ops, &prof, &cfg, true);
+            let run = eval_case::<P>(&rf.ops, &prof, &cfg, true);
             for l in &run.trace {
                 println!("  {l}");
             }
@@ -162,7 +170,7 @@ fn run(args: &[String], prop: &str, seed: u64, build: &str, prof: Profile, cfg: 
             let Ok(rf) = serde_json::from_str::<ReplayFile>(&txt) else { continue };
             let rprof = Profile::for_prop(&rf.profile);
             replayed += 1;
-            let run = run_history::<P>(&rf.ops, &rprof, &StepCfg::default(), false);
+            let run = eval_case::<P>(&rf.ops, &rprof, &StepCfg::default(), false);
             total.evals += run.evals;
             if let Some((_, fs, _)) = &run.fail {
                 if let Some(fl) = fs.iter().find(|x| x.hits(prop)) {
